@@ -673,8 +673,10 @@ class URL:
             dest, orig_dest = URL(dest), dest
         if dest.scheme and dest.host:
             # absolute URLs replace everything, but don't make an
-            # extra copy if we don't have to
-            ret = URL(dest) if orig_dest is None else dest
+            # extra copy if we don't have to (copy through the fully
+            # quoted text: the minimally quoted one is decoded twice)
+            ret = (URL(dest.to_text(full_quote=True))
+                   if orig_dest is None else dest)
             ret.normalize()
             return ret
         query_params = dest.query_params
